@@ -76,6 +76,27 @@ Proof.
   split; [exact F1|]. split; [exact F2|]. intros c. symmetry. apply E.
 Qed.
 
+(* "The stored actions differ at most in order": a cell's value changes at most once in an update loop,
+   namely when the cell is computed, so the changes a run records are, as a multiset, the difference between
+   initial and final values ([calc_changes]) - and that difference is the same for all complete runs. *)
+Theorem sched_value_changes_once : forall P s s' s'' c,
+  steps P s s' -> steps P s' s'' -> val s' c <> val s c -> val s'' c = val s' c.
+Proof. exact value_changes_once. Qed.
+
+Theorem sched_changes_order_independent : forall P s r1 r2 cs,
+  strict_prog P -> wf_init P s -> complete_run P s r1 -> complete_run P s r2 ->
+  calc_changes s r1 cs = calc_changes s r2 cs.
+Proof.
+  intros P s r1 r2 cs Hs Hw H1 H2. unfold calc_changes.
+  pose proof (sched_confluent_strict P s r1 r2 Hs Hw H1 H2) as E.
+  rewrite (filter_ext _ (fun c => negb (value_eqb (val s c) (val r2 c)))) by (intros c; rewrite E; reflexivity).
+  apply map_ext. intros c. rewrite E. reflexivity.
+Qed.
+
+(* The engine's two "not making progress" exceptions are unreachable (statements in Props/C18.v too). *)
+Theorem sched_progress_checks : forall P v d s, steps P (init_state v d) s -> (nexp s <= ndone s)%nat.
+Proof. exact progress_checks_hold. Qed.
+
 (* The statement at full strength (every program, also formulas with try/except on a cycle) ... *)
 Definition C06_all_programs : Prop := forall P s r1 r2,
   wf_init P s -> complete_run P s r1 -> complete_run P s r2 -> forall c, val r1 c = val r2 c.
